@@ -61,6 +61,8 @@ class Trainer:
         self.TRIM_ESS = TRIM_ESS
         self.TRIM_BINS = TRIM_BINS
         self.DOF_FALLBACK = DOF_FALLBACK
+        # The (shared) clusterer has not been fitted yet by this trainer
+        self._clusterer_fitted = False
 
     def run(self, weights: np.ndarray) -> ModeStatistics:
         """
@@ -94,10 +96,16 @@ class Trainer:
             np.arange(len(weights)), weights, ess=self.TRIM_ESS, bins=self.TRIM_BINS
         )
 
-        if self.clustering and (iter_val % self.cluster_every == 0 or iter_val == 0):
-            # Fit clustering model and mode statistics
+        if self.clustering and (
+            iter_val % self.cluster_every == 0
+            or iter_val == 0
+            or not self._clusterer_fitted
+        ):
+            # Fit clustering model and mode statistics (always on the first
+            # annealing iteration of this trainer: predict() needs a fitted model)
             u = self.state.get_history("u", flat=True)[trim_idx]
             self.clusterer.fit(u, weights_trimmed)
+            self._clusterer_fitted = True
             labels = self.clusterer.predict(u)
             mode_stats = ModeStatistics.from_particles(
                 u, weights_trimmed, labels, dof_fallback=self.DOF_FALLBACK
